@@ -248,6 +248,24 @@ def run_float(kind, scales, acc, only=None, tier='quick', part=None):
         pl = seg.poly()
         plc = seg.poly(return_coeffs=True)
         many = seg.points(ts)
+        # the same ndarray object, refilled in place between two calls (a caller's scratch buffer), and
+        # handed to another segment: points() must evaluate what the array holds NOW
+        buf = np.array(ts, dtype=float)
+        first = outcome(lambda: [complex(z) for z in seg.points(buf)])
+        buf *= 0.5
+        second = outcome(lambda: [complex(z) for z in seg.points(buf)])
+        other = cls(*[p + (1 - 2j) * sc for p in pts])
+        third = outcome(lambda: [complex(z) for z in other.points(buf)])
+        acc.case(dict(case, q='points_buffer_reuse'), cls='float/%s/points_buffer_reuse' % kind)
+        bnd = 64 * EPS * (mag + 3 * sc) * max(1.0, max(abs(t) for t in ts)) ** n + 1e-300
+        okb = first[0] == second[0] == third[0] == 'ok' and \
+            all(abs(z - complex(ref_point(ex, F(t)))) <= bnd for z, t in zip(first[1], ts)) and \
+            all(abs(z - complex(ref_point(ex, F(t * 0.5)))) <= bnd for z, t in zip(second[1], ts)) and \
+            all(abs(z - complex(ref_point(exact_pts([p + (1 - 2j) * sc for p in pts]), F(t * 0.5)))) <= bnd for z, t in zip(third[1], ts))
+        if not okb:
+            acc.violation('points_depends_on_earlier_call', {'kind': kind}, dict(case, q='points_buffer_reuse'),
+                          observed=[first[0], second[0], third[0], repr(second[1])[:200]],
+                          expected='values at the CURRENT contents of the array')
         for ti, t in enumerate(ts):
             tq = F(t)
             truth = complex(ref_point(ex, tq))
@@ -295,8 +313,10 @@ def expected_classes(tier):
         n = CLASSES[kind][1]
         for name in ['point', 'poly_coeffs', 'poly1d_call', 'points', 'poly2bez_of_poly', 'bez2poly_numpy_order'] + \
                 ['derivative_%d' % k for k in range(1, n + 3)]:
-            out.append('exact/%s/%s/certified' % (kind, name))
-        out += ['float/%s/point' % kind, 'float/%s/derivative' % kind]
+            # without the degree certificate (value-dependent code) the identity is still decided on the grid, the
+            # evidence then says so (all_inputs_certificate false) instead of claiming all inputs
+            out.append('exact/%s/%s/certified|exact/%s/%s/grid_only' % (kind, name, kind, name))
+        out += ['float/%s/point' % kind, 'float/%s/derivative' % kind, 'float/%s/points_buffer_reuse' % kind]
     return out
 
 
@@ -308,6 +328,9 @@ def finalize(acc):
     ok = acc.extra.get('certificate_runs_ok', {})
     bad = acc.extra.get('certificate_runs_failed', {})
     acc.extra['all_inputs_certificate'] = {k: (k not in bad) for k in sorted(set(ok) | set(bad))}
+    if bad:
+        import sys
+        sys.stderr.write('NOTE property=%s: no degree certificate for %s - decided on the grid only, not for all inputs\n' % (ID, sorted(bad)))
 
 
 def space(tier, seed):
